@@ -324,7 +324,50 @@ def run(tier="quick", seed=0):
                         break
                 record(table, bad, None, "shrink")
         distinct.add(("shrink", tri))
+    # (g) merges bigger than a target needs: three or four exact 4-bit entries with one route and one or two wider entries with
+    #     other routes, orthogonal, EVERY target from 0 to the table's length (a minimiser that stops, trims or relaxes as soon
+    #     as the target is in reach is exercised at the very iteration where the best merge overshoots it)
+    pats4 = [(k, m) for m in range(16) for k in range(16) if k & ~m == 0 and m != 15]
+
+    def inter4(a, b):
+        return (a[0] ^ b[0]) & a[1] & b[1] == 0
+    for i in range(1200 if tier == "quick" else 15000):
+        keys = rng.sample(range(16), rng.choice((3, 3, 4)))
+        mem = [(k, 15) for k in keys]
+        others = []
+        for _try in range(rng.choice((1, 1, 2))):
+            cand = [q for q in pats4 if not any(inter4(q, x) for x in mem + others)]
+            if cand:
+                others.append(rng.choice(cand))
+        if not others:
+            continue
+        r1, r2, r3 = rng.sample(routes, 3)
+        ents = sorted([(q, r1) for q in mem] + [(q, r) for q, r in zip(others, (r2, r3))], key=lambda pr: 4 - bin(pr[0][1]).count("1"))
+        table = [RTE(r, q[0], q[1], {None}) for q, r in ents]
+        L = len(table)
+        for tgt in range(0, L + 1):
+            for name, fn in (("ordered_covering.minimise", ordered_covering.minimise), ("minimise_table", minimise_table)):
+                ev += 1
+                try:
+                    new = fn(list(table), tgt)
+                except MinimisationFailedError:
+                    continue
+                except Exception as e:      # noqa
+                    record(table, "%s raised %s" % (name, type(e).__name__), tgt, "overshoot")
+                    continue
+                bad = None
+                if len(new) > tgt:
+                    bad = "%s returned %d entries for target %d" % (name, len(new), tgt)
+                for key in range(16):
+                    e = lookup(table, key)
+                    if e is None or bad:
+                        continue
+                    nn = lookup(new, key)
+                    if nn is None or nn.route != e.route:
+                        bad = "%s(target=%d): key %d routed to %s, was %s" % (name, tgt, key, None if nn is None else sorted(nn.route), sorted(e.route))
+                record(table, bad, tgt, "overshoot")
+        distinct.add(("overshoot", tuple(q for q, _ in ents)))
     return {"name": "c04_tables", "evaluations": ev, "distinct_nontrivial": len(distinct),
-            "rule": "the empty table; every orthogonal table over 3 key bits with <= %d entries (x%d random route/source dressings and orders); overlapping tables with <= %d entries in generality order (and in arbitrary order for default-route removal); seeded random generality-ordered tables over 5 bits with 2..10 entries; targets None, 0, len-1, len, len+1; through remove_default_routes.minimise, ordered_covering.minimise, minimise_table, minimise_tables; merges that must be shrunk (three exact 5-bit entries + a generality-3 and a generality-2 entry of other routes, orthogonal: a seeded 2 or 25 percent of 921 600); several chips in one call of minimise_tables (2-4 chips carrying the same patterns and routes with other sources / identical tables / other tables, one target or a target per chip: each chip's result against its own table, a failure must name a chip that cannot meet its target on its own); sequences (tables over 4 bits whose merged output entries reappear below other entries in the next table minimised in the same process); oracle: first match + hardware default routing + sources listed" % (nmax, reps, nmax_o),
+            "rule": "the empty table; every orthogonal table over 3 key bits with <= %d entries (x%d random route/source dressings and orders); overlapping tables with <= %d entries in generality order (and in arbitrary order for default-route removal); seeded random generality-ordered tables over 5 bits with 2..10 entries; targets None, 0, len-1, len, len+1; through remove_default_routes.minimise, ordered_covering.minimise, minimise_table, minimise_tables; merges that must be shrunk (three exact 5-bit entries + a generality-3 and a generality-2 entry of other routes, orthogonal: a seeded 2 or 25 percent of 921 600); several chips in one call of minimise_tables (2-4 chips carrying the same patterns and routes with other sources / identical tables / other tables, one target or a target per chip: each chip's result against its own table, a failure must name a chip that cannot meet its target on its own); sequences (tables over 4 bits whose merged output entries reappear below other entries in the next table minimised in the same process); merges bigger than the target needs (three or four exact 4-bit entries of one route + one or two wider entries of other routes, orthogonal, seeded 1200/15000 tables, every target 0..len); oracle: first match + hardware default routing + sources listed" % (nmax, reps, nmax_o),
             "bound": "3 key bits exhaustive up to the stated sizes; 5 bits sampled", "exhaustive": False, "label": "bounded",
             "samples": samples, "violations": viol, "seconds": round(time.time() - t0, 2)}
